@@ -36,6 +36,7 @@ void hook(const char* dir, int kind, const char* name, void* ptr, void* state);
 #endif
 #include "trace.hpp"
 
+#include <algorithm>
 #include <cstring>
 #include <fstream>
 #include <iostream>
@@ -368,11 +369,38 @@ static void timing_event()
   out.put(e);
 }
 
+// ---------------------------------------------------------------- fillers (never called)
+template<int K>
+static tainted<long, Sbx> filler_cb(RS&, tainted<long, Sbx> x)
+{
+  return x + K;
+}
+#if defined(BK_VM)
+static const int CAPACITY = 4;
+#else
+static const int CAPACITY = 64;
+#endif
+using FillerFn = tainted<long, Sbx> (*)(RS&, tainted<long, Sbx>);
+template<int... Ks>
+static std::vector<FillerFn> filler_table(std::integer_sequence<int, Ks...>)
+{
+  return { &filler_cb<Ks>... };
+}
+static std::vector<Owner> fillers[NSB];
+static void fill_entries(int si)
+{
+  static const std::vector<FillerFn> fns = filler_table(std::make_integer_sequence<int, 62>{});
+  for (int k = 0; k < CAPACITY - 2; k++) {
+    fillers[si].push_back(sb[si]->register_callback(fns[k]));
+  }
+}
+
 static void teardown()
 {
   for (int i = 0; i < NSB; i++) {
     stale_owners[i].clear();
     owners[i].clear();
+    fillers[i].clear();
     given[i].clear();
     stale[i].clear();
     if (sb[i]) {
@@ -503,6 +531,20 @@ int main(int argc, char** argv)
         e.str("out", "abort");
       }
       out.put(e);
+    } else if (op == "fill") {
+      // occupy all but two of the backend's entry points with callbacks that are never called, so
+      // that the callbacks of the tree live in the LAST entries
+      int si = sb_idx(a1);
+      tr::Ev e("fill");
+      e.str("s", a1);
+      try {
+        fill_entries(si);
+        e.str("out", "ok");
+      } catch (const std::runtime_error&) {
+        e.str("out", "abort");
+      }
+      e.num("n", (long)fillers[si].size());
+      out.put(e);
     } else if (op == "reg") {
       int si = sb_idx(a1);
       tr::Ev e("reg");
@@ -589,7 +631,22 @@ int main(int argc, char** argv)
 #if defined(BK_VM)
       for (int i = 0; i < NSB; i++) {
         if (stale[i].empty()) {
-          stale[i].push_back(Sbx::SlotBase + 3);
+          // the first entry that is not handed out at the moment (one past the table if all are)
+          std::vector<unsigned long long> used;
+          for (auto& kv : given[i]) {
+            used.push_back(kv.second);
+          }
+          for (auto& f : fillers[i]) {
+            used.push_back((unsigned long long)(uintptr_t)f.UNSAFE_sandboxed(*sb[i]));
+          }
+          unsigned long long pick = Sbx::SlotBase + CAPACITY;
+          for (int k = CAPACITY - 1; k >= 0; k--) {
+            if (std::find(used.begin(), used.end(), (unsigned long long)(Sbx::SlotBase + k)) == used.end()) {
+              pick = Sbx::SlotBase + k;
+              break;
+            }
+          }
+          stale[i].push_back(pick);
         }
       }
 #endif
